@@ -39,7 +39,7 @@ _FAIL = object()
 
 
 def budget(tier):
-    return {"examples": 3000 if tier == "quick" else 60000, "shards": 16, "shrink": 200 if tier == "quick" else 600}
+    return {"examples": 9000 if tier == "quick" else 100000, "shards": 16, "shrink": 200 if tier == "quick" else 600}
 
 
 # ---------------------------------------------------------------------------------------------------------------------
